@@ -359,6 +359,8 @@ func init() {
 			c.ruleFinalGate()
 			c.min("R-FINALGATE/voter", 2)
 			c.min("R-FINALGATE/once", 2)
+			c.ruleStageMaps()
+			c.min("R-STAGEMAPS", 6)
 			c.ruleThreshA()
 			c.min("R-THRESHCONV", 7)
 		})
